@@ -105,13 +105,16 @@ PROPS = {
                     "store nothing before the operator has succeeded (proof-only assertions bracketing the update, "
                     "against a model of RwLock). Aliasing (Arc), freshness of cells and the typing rule for cell contents "
                     "are NOT under contract: bounded probes (fixed scenarios, REPL-style error-path sequences, random "
-                    "aliasing programs against a reference heap).",
+                    "aliasing programs against a reference heap). The RwLock model of V is cross-checked bit-precisely by K on a REAL "
+                    "Arc<Mut> cell: assign::exec / try_exec store what they yield, a failing update leaves the content alone, `*c` "
+                    "reads the content (all i64 operands).",
         assumptions=COMMON + MACHINE + [
             "model of std::sync::RwLock<Variable>: write()/read() never poisoned, the guard dereferences to the content at lock "
             "time, and what the guard holds when it is dropped is the new content (the drop itself is not modelled: `stores` "
             "clauses are assertions about the guard at the function's exit points)",
-            "`c = v` (plain assignment) passes the un-annotated closure `|_, b| b` to assign::exec: that it yields v is "
-            "inspected, not proved (Verus gives un-annotated closures no callable spec); bounded probes",
+            "`c = v` (plain assignment) passes the un-annotated closure `|_, b| b` to assign::exec: Verus gives un-annotated closures "
+            "no callable spec; that assign::exec with such a closure stores and yields v is the K harness "
+            "c13_assign_exec_plain_assignment_cell (real RwLock cell, all i64), that BinOperation::exec passes exactly that closure is inspected",
             "aliasing of cells is Arc sharing (Rust semantics), freshness is `Arc::new` per evaluation of Mut::exec: not "
             "expressible as a contract on one call; bounded probes",
             "the typing rule (content of a `mut T` cell stays a T: assign::can_be_used, invariance of mut in Type::matches) "
